@@ -9,6 +9,7 @@ tier B: the real `apply` of all eight debiasers is run in-process on the matrix 
 oracle: the property statement itself on the same runs (exception classes, zero `apply_location` calls before an
         exception, conversions visible in what reaches the locations, warnings present).
 """
+import itertools
 import logging
 import random
 import re
@@ -349,41 +350,48 @@ def dates(n, start="1950-01-01"):
     return np.arange(np.datetime64(start), np.datetime64(start) + np.timedelta64(n, "D"))
 
 
-def check_time_case(name, cfg, deltas, res, lines, expect, problems, omit=None, nfut=None):
-    """deltas: change of the length of (time_obs, time_cm_hist, time_cm_future) relative to the series"""
+def check_time_case(name, cfg, deltas, res, lines, expect, problems, omit=(), nfut=None):
+    """deltas: change of the length of (time_obs, time_cm_hist, time_cm_future) relative to the series;
+    omit: positions whose time array is not passed at all (then inferred by the code)"""
+    omit = tuple([omit] if isinstance(omit, str) else (omit or ()))
     n = dict(N)
     if nfut:
         n["cm_future"] = nfut
     r0 = np.random.RandomState(7)
     vals = [np.round(r0.normal(280.0, 2.0, size=(n[a], 2, 2)) * 64) / 64 for a in ARGS]
     tl = [n[a] + dl for a, dl in zip(ARGS, deltas)]
-    times = {"time_" + a: dates(t) for a, t in zip(ARGS, tl)}
-    if omit:
-        times.pop("time_" + omit)
-        tl[ARGS.index(omit)] = n[omit]  # inferred with the right length
+    times = {"time_" + a: dates(t) for a, t in zip(ARGS, tl) if a not in omit}
+    given = [None if a in omit else t for a, t in zip(ARGS, tl)]
+    if name == "ISIMIP":
+        cfg = {"running_window_step_length": 31, **cfg}  # (the default step 1 is only slower)
     run = Run(name, cfg, vals, times)
     rw = int(cfg.get("running_window_mode", False))
     yr = int(cfg.get("running_window_mode_over_years_of_cm_future", False))
-    case = {"debiaser": name, "cfg": cfg, "series_lengths": [n[a] for a in ARGS], "time_lengths": tl, "omitted": omit}
-    res.count(("time", name, rw, yr) + tuple(deltas) + (omit, nfut), any(deltas), sample=case if any(deltas) and len(res.distinct) % 89 == 5 else None)
+    case = {"debiaser": name, "cfg": cfg, "series_lengths": [n[a] for a in ARGS], "time_lengths": given, "omitted": list(omit)}
+    mism = [a for a, dl in zip(ARGS, deltas) if dl != 0 and a not in omit]
+    res.count(("time", name, rw, yr) + tuple(deltas) + (omit, nfut), bool(mism) or bool(omit),
+              sample=case if mism and len(res.distinct) % 89 == 5 else None)
     actual = "ok" if run.exc is None else "error " + type(run.exc).__name__
-    lines.append(f"time {name} {rw} {yr} {n['obs']} {n['cm_hist']} {n['cm_future']} {tl[0]} {tl[1]} {tl[2]}")
+    lines.append(f"timep {name} {rw} {yr} {n['obs']} {n['cm_hist']} {n['cm_future']} " + " ".join("-" if g is None else str(g) for g in given))
     expect.append(("time", case, actual))
     lines.append(f"consumes {name} {rw} {yr}")
     expect.append(("consumes", case, None))  # filled by the caller from the oracle below
-    # oracle: in a consuming configuration a mismatch is a ValueError before any window computation
+    # oracle: in a consuming configuration a *given* array of the wrong length is a ValueError before any window computation,
+    # whichever other arrays are omitted
     consuming = name == "ISIMIP" or rw
     fut_only = (not consuming) and name in ("CDFt", "QuantileDeltaMapping") and yr
-    mism = [a for a, dl in zip(ARGS, deltas) if dl != 0 and a != omit]
     must_fail = (consuming and mism) or (fut_only and "cm_future" in mism)
     if must_fail:
         if not isinstance(run.exc, ValueError):
-            problems.append((f"time array of {mism} does not match its series but apply raised {type(run.exc).__name__ if run.exc else 'nothing'}",
-                             {**case, "observed": actual + ("" if run.exc is None else ": " + str(run.exc)[:80])}, {"what": "time_mismatch"}))
+            problems.append((f"time array of {mism} is given with a length that does not match its series"
+                             + (f" (time array of {list(omit)} omitted)" if omit else "")
+                             + f" but apply raised {type(run.exc).__name__ if run.exc else 'nothing'}",
+                             {**case, "observed": actual + ("" if run.exc is None else ": " + str(run.exc)[:80])},
+                             {"what": "time_mismatch_partial" if omit else "time_mismatch"}))
         elif run.compute_calls:
             problems.append(("the window computation ran before the time-array ValueError", {**case, "observed": actual}, {"what": "time_error_late"}))
-    elif not any(deltas) and run.exc is not None and run.compute_calls == 0:
-        problems.append((f"matching time arrays rejected: {type(run.exc).__name__}: {str(run.exc)[:80]}", {**case, "observed": actual}, {"what": "time_ok_rejected"}))
+    elif not mism and run.exc is not None and run.compute_calls == 0:
+        problems.append((f"matching / omitted time arrays rejected: {type(run.exc).__name__}: {str(run.exc)[:80]}", {**case, "observed": actual}, {"what": "time_ok_rejected"}))
     return "".join("1" if x else "0" for x in ((consuming, consuming, consuming or fut_only)))
 
 
@@ -394,7 +402,7 @@ def run(tier, res, force_search=False):
     res.rule = ("cases = (debiaser, recipe for obs, recipe for cm_hist, recipe for cm_future) with recipes from a fixed catalogue of "
                 f"{len(RECIPES)} array kinds (clean / non-ndarray / dtype / ndim / spatial shape / NaN / inf / range / masked variants): the full matrix "
                 "argument position x single malformation x 8 debiasers, plus seeded pairs and triples of malformations; and the time-array matrix "
-                "(debiaser x window configuration x mismatching position x +-1, omitted arrays, matching arrays). Non-trivial = at least one "
+                "(debiaser x window configuration x every combination of {given right, given wrong length +-1, omitted} over the three time arrays). Non-trivial = at least one "
                 "malformed argument / mismatching time array; distinct = distinct (debiaser, recipes) or (debiaser, configuration, deltas) tuples")
     res.trusted = C.BASE_TRUSTED + [
         "translator/extract_contract.py (AST -> step list / helper texts / order facts); the meaning of each helper predicate is its numpy meaning "
@@ -443,20 +451,24 @@ def run(tier, res, force_search=False):
     consumes_expect = {}
     for name in DEBS:
         for cfg in time_configs(name):
-            todo = [((0, 0, 0), None, None)]
-            for pos in range(3):
+            # every combination of {given with the right length, given with a wrong length, omitted} over the three positions
+            todo = []
+            for states in itertools.product(("ok", "wrong", "omitted"), repeat=3):
+                d3 = tuple((rng.choice((-1, 1)) if st == "wrong" else 0) for st in states)
+                todo.append((d3, tuple(a for a, st in zip(ARGS, states) if st == "omitted"), None))
+            for pos in range(3):  # both signs for a single wrong array, everything else given
                 for dl in (-1, 1):
                     d3 = [0, 0, 0]
                     d3[pos] = dl
-                    todo.append((tuple(d3), None, None))
-            todo.append(((0, 0, 0), ARGS[rng.randrange(3)], None))       # one array omitted (inferred)
-            todo.append(((0, -1, 0), "cm_hist", None))                   # omitted array: its length cannot mismatch
+                    todo.append((tuple(d3), (), None))
+            todo.append(((0, -1, 0), ("cm_hist",), None))                 # an omitted array cannot mismatch
             if name in ("CDFt", "QuantileDeltaMapping") and not cfg["running_window_mode"]:
-                todo.append(((0, 0, 0), None, 800))                      # several years of cm_future (obs / cm_hist are used whole)
-                todo.append(((0, 0, -3), None, 800))
+                todo.append(((0, 0, 0), (), 800))                        # several years of cm_future (obs / cm_hist are used whole)
+                todo.append(((0, 0, -3), (), 800))
+                todo.append(((0, 0, -3), ("obs",), 800))
             if tier == "thorough":
                 for _ in range(6):
-                    todo.append((tuple(rng.choice([-2, -1, 0, 0, 1, 5]) for _ in range(3)), None, None))
+                    todo.append((tuple(rng.choice([-2, -1, 0, 0, 1, 5]) for _ in range(3)), (), None))
             for d3, omit, nfut in todo:
                 k0 = len(expect)
                 flags = check_time_case(name, cfg, d3, res, lines, expect, problems, omit=omit, nfut=nfut)
@@ -501,8 +513,8 @@ def replay(data):
     if "recipes" in fi:
         check_case(fi["debiaser"], [fi["recipes"][a] for a in ARGS], res, lines, expect, problems, seed=fi.get("data_seed", 0))
     else:
-        deltas = [t - n for t, n in zip(fi["time_lengths"], fi["series_lengths"])]
-        check_time_case(fi["debiaser"], fi["cfg"], deltas, res, lines, expect, problems, omit=fi.get("omitted"),
+        deltas = [0 if t is None else t - n for t, n in zip(fi["time_lengths"], fi["series_lengths"])]
+        check_time_case(fi["debiaser"], fi["cfg"], deltas, res, lines, expect, problems, omit=tuple(fi.get("omitted") or ()),
                         nfut=fi["series_lengths"][2] if fi["series_lengths"][2] != N["cm_future"] else None)
     for p, case, sig in problems:
         print("still failing:", p, case.get("observed"))
